@@ -27,12 +27,12 @@ func init() {
 		},
 		Bounds: func(tier string) map[string]interface{} {
 			return map[string]interface{}{
-				"layer":   "aztec/decoder.Decoder.HighLevelDecode only: bit sequences built in the harness from the code tables of ISO/IEC 24778 (typed independently), 1..3 free data codes per table, seven shift/latch scripts with every data code free, binary shifts of 1, 3, 31, 32 (40) free bytes below 0x80",
+				"layer":    "aztec/decoder.Decoder.HighLevelDecode only: bit sequences built in the harness from the code tables of ISO/IEC 24778 (typed independently), 1..3 free data codes per table, seven shift/latch scripts with every data code free, binary shifts of 1, 3, 31, 32 (40) free bytes below 0x80",
 				"deciding": "codes are made concrete per path by solver-enumerated forks (each path one code combination); binary-shift bytes stay symbolic",
 			}
 		},
-		Exhaustive: func(tier string) bool { return false },
-		Outside:    []string{"the whole symbol layer: bull's-eye detection, orientation, mode message, Reed-Solomon correction in GF(16)/GF(64)/GF(256)/GF(1024)/GF(4096), layer spiral read-out (extractBits), bit un-stuffing (correctBits) — no reference Aztec symbol constructor was built, so 'symbols of every size' is NOT covered", "binary-shift bytes >= 0x80 and ECI switches (FLG(n)) inside a conforming stream (C06 covers their totality)", "texts longer than three codes per table"},
+		Exhaustive:  func(tier string) bool { return false },
+		Outside:     []string{"the whole symbol layer: bull's-eye detection, orientation, mode message, Reed-Solomon correction in GF(16)/GF(64)/GF(256)/GF(1024)/GF(4096), layer spiral read-out (extractBits), bit un-stuffing (correctBits) — no reference Aztec symbol constructor was built, so 'symbols of every size' is NOT covered", "binary-shift bytes >= 0x80 and ECI switches (FLG(n)) inside a conforming stream (C06 covers their totality)", "texts longer than three codes per table"},
 		Assumptions: commonAssumptions,
 	}
 }
